@@ -30,6 +30,17 @@ from .passes import (
 ElaboratableType = TypeVar("ElaboratableType", bound=Elaboratables)
 
 
+class PostFlattenConnTypes(ConnTypes):
+    """The repeat of `ConnTypes` run after flattening.
+    Each `ElabPass` sub-class has its own cache of the Modules it has completed.
+    Listing `ConnTypes` itself a second time would find every Module in that cache, and check nothing."""
+
+
+class PostFlattenOrphanage(Orphanage):
+    """The repeat of `Orphanage` run after flattening. Again a separate class, to have a separate cache."""
+
+
+
 @datatype
 class Elaborator:
     """
@@ -57,8 +68,8 @@ class Elaborator:
                 #
                 # A couple repeats
                 #
-                ConnTypes,
-                Orphanage,
+                PostFlattenConnTypes,
+                PostFlattenOrphanage,
                 #
                 # And final module-marking
                 #
